@@ -122,7 +122,7 @@ def run(ctx):
             if any(a not in allowed for a in acts) or bad_internal:
                 r.violate(key + "|acts", f"{st}: actions run before breaking at end of a non-last chunk: {describe_leaf(st, l)}", shared.state_loc(st))
     r.count("end_of_chunk_leaves", n_break)
-    if n_break < 65 + 30:
+    if n_break < 65 + 30 and not r.violations:
         raise EngineError("R02.1: only %d end-of-chunk leaves found" % n_break)
 
     # ------------------------------------------------------------------ R02.2
